@@ -60,8 +60,8 @@ def main():
     meta['property'] = prop
     checks = (a.checks.split(',') if a.checks
               else meta.get('checks_expected') or [prop])
-    wt = '/tmp/sv/' + a.name
-    vc = '/tmp/vc/' + a.name
+    wt = '/tmp/sv/%s-%d' % (a.name, os.getpid())
+    vc = '/tmp/vc/%s-%d' % (a.name, os.getpid())
     os.makedirs('/tmp/sv', exist_ok=True)
     os.makedirs('/tmp/vc', exist_ok=True)
     sh('git -C /repo worktree remove --force %s' % wt)
